@@ -33,8 +33,9 @@ func cmdSelftest(args []string) int {
 	workers := fs.Int("workers", 14, "solver workers")
 	only := fs.String("entry", "", "run only these entries (comma separated)")
 	models := fs.Int("models", 3, "models per path")
-	qto := fs.Int("qtimeout", 60000, "per-query timeout ms")
+	qto := fs.Int("qtimeout", 15000, "per-query timeout ms")
 	verbose := fs.Bool("v", false, "verbose")
+	budget := fs.Int("budget", 40, "seconds of all workers per entry")
 	fs.Parse(args)
 	solver := "z3"
 	if p, err := exec.LookPath("z3-new"); err == nil {
@@ -108,6 +109,9 @@ func cmdSelftest(args []string) int {
 			if e.Pkg == "" {
 				e.Pkg = part.spec.Packages[0]
 			}
+			if e.TimeoutS == 0 {
+				e.TimeoutS = *budget // worker-time budget per entry; what is cut off is reported
+			}
 			entries = append(entries, e)
 		}
 		if len(entries) == 0 {
@@ -140,7 +144,10 @@ func cmdSelftest(args []string) int {
 			for _, c := range er.Unsupported {
 				nu += c
 			}
-			if nu > 0 || er.Budget > 0 || er.Unknown > 0 {
+			if er.Unknown > 0 {
+				fmt.Printf("selftest: %s: %d solver answers unknown within the query timeout (those vectors are skipped)\n", er.Cfg.Func, er.Unknown)
+			}
+			if nu > 0 || er.Budget > 0 {
 				fmt.Printf("SELFTEST-PROBLEM entry=%s unsupported=%v budget=%d unknown=%d\n", er.Cfg.Func, er.Unsupported, er.Budget, er.Unknown)
 				problems++
 			}
@@ -148,7 +155,10 @@ func cmdSelftest(args []string) int {
 				fmt.Printf("SELFTEST-PROBLEM entry=%s produced no observation vector (paths=%d done=%d)\n", er.Cfg.Func, er.Paths, er.Done)
 				problems++
 			}
-			summary = append(summary, map[string]interface{}{"entry": er.Cfg.Func, "paths": er.Paths, "completed": er.Done, "vectors": nobs, "wall_s": er.Wall.Seconds()})
+			summary = append(summary, map[string]interface{}{"entry": er.Cfg.Func, "paths": er.Paths, "completed": er.Done, "vectors": nobs, "wall_s": er.Wall.Seconds(), "truncated": er.Truncated})
+			if er.Truncated {
+				fmt.Printf("selftest: %s truncated by its time budget after %d paths\n", er.Cfg.Func, er.Paths)
+			}
 		}
 	}
 	if len(recs) == 0 {
